@@ -10,6 +10,7 @@ from engine import pat
 from engine.util import own_nodes, calls_with_nodes, where
 
 RULES = {
+    "R-16.10": "a candidate that cannot be asked is skipped, not fatal: in _get_qnames_to_try every `qname + suffix` (or concatenate) over the search list sits in a try that handles dns.name.NameTooLong - a long relative name that is valid on its own must not make resolve() raise NameTooLong (not one of the documented outcomes) because one search suffix does not fit",
     "R-16.9": "a server that answers with something that is not a response to the query is 'broken' and dropped: dns.query.BadResponse (and the other reply-format errors) derive from dns.exception.FormError, the class query_result() reads as 'remove this server'",
     "R-16.8": "a resolver with an LRU cache returns answers, never KeyError: the cache's dict and recency ring change together in every method (rule of C17 R-17.4 dict/ring pairing, run here directly because C17 adopts C16 rules)",
     "R-16.7": "the two resolvers see the same outcome classes: a timed-out query is dns.exception.Timeout on every backend (C18 R-18.6 adopted), because query_result() retries a Timeout but drops a server for any other OSError",
@@ -213,13 +214,40 @@ def run(model, rep, tier):
                   "(LifetimeTimeout instead of NoNameservers)", stmt="formerror-family")
     from rules.c17 import check_lru_pairs
     check_lru_pairs(model, rep, "R-16.8")
-    rep.share(model, "C18", {"R-18.1", "R-18.2", "R-18.4", "R-18.5", "R-18.6"}, "R-16.7", "_Resolution.query_result classifies exceptions: Timeout -> try again later, other OSError/FormError -> remove the server")
+    rep.share(model, "C18", {"R-18.1", "R-18.2", "R-18.4", "R-18.5", "R-18.6", "R-18.11"}, "R-16.7", "_Resolution.query_result classifies exceptions: Timeout -> try again later, other OSError/FormError -> remove the server")
+    # ---------------------------------------------------------------- R-16.10
+    gq = model.func("dns.resolver.BaseResolver._get_qnames_to_try")
+    par10 = {id(ch): pr for pr in ast.walk(gq.node) for ch in ast.iter_child_nodes(pr)}
+    n10 = 0
+    for lp in [x for x in ast.walk(gq.node) if isinstance(x, ast.For) and isinstance(x.target, ast.Name)]:
+        tv = lp.target.id
+        for e10 in ast.walk(lp):
+            joins = (isinstance(e10, ast.BinOp) and isinstance(e10.op, ast.Add) and any(isinstance(o, ast.Name) and o.id == tv for o in (e10.left, e10.right))) or \
+                    (isinstance(e10, ast.Call) and isinstance(e10.func, ast.Attribute) and e10.func.attr == "concatenate" and any(isinstance(o, ast.Name) and o.id == tv for o in e10.args))
+            if not joins:
+                continue
+            n10 += 1
+            cur, child, handled = par10.get(id(e10)), e10, False
+            while cur is not None and cur is not lp:
+                if isinstance(cur, ast.Try) and any(child is b for b in cur.body):
+                    for h in cur.handlers:
+                        ht = [src(h.type)] if h.type is not None and not isinstance(h.type, ast.Tuple) else ([src(x) for x in h.type.elts] if h.type is not None else ["BaseException"])
+                        if any(x.endswith(("NameTooLong", "FormError", "DNSException", "Exception")) for x in ht) and not any(isinstance(b, ast.Raise) for b in h.body):
+                            handled = True
+                child, cur = cur, par10.get(id(cur))
+            rep.check(handled, "R-16.10", gq.qualname, where(gq, e10), f"`{src(e10)}`: a suffix that makes the name too long is skipped",
+                      f"`{src(e10)}` can raise dns.name.NameTooLong (a 245-octet relative name plus a search suffix) and nothing handles it: resolve() ends with NameTooLong instead of trying the remaining candidates", stmt="search-join")
+    rep.floor("R-16.10", n10, 1)
     rep.meta["explanation"] = (
         "Twin projection of the sync/async resolve loops, helper lookups and the five Nameserver classes (call arguments compared modulo `backend`), def-use/dominance rule for the lifetime budget, "
         "a cycle-must-pass-increment check for the CNAME chain, and set comparison of cache keys. The outcome for every fault sequence and the search-list rules are NOT decided.")
 
 
 WITNESSES = [
+    {"id": "c16-search-suffix-too-long-is-fatal", "rule": "R-16.10", "file": "dns/resolver.py", "expect": "fires",
+     "old": "                    try:\n                        qnames_to_try.append(qname + suffix)\n                    except dns.name.NameTooLong:\n                        # This candidate cannot be asked; the others still can.\n                        pass", "new": "                    qnames_to_try.append(qname + suffix)"},
+    {"id": "c16-twin-search-suffix-concatenate", "rule": "R-16.10", "file": "dns/resolver.py", "expect": "silent",
+     "old": "                        qnames_to_try.append(qname + suffix)\n                    except dns.name.NameTooLong:", "new": "                        candidate = qname.concatenate(suffix)\n                        qnames_to_try.append(candidate)\n                    except dns.name.NameTooLong:"},
     {"id": "c16-ndots-zero-taken-for-unset", "rule": "R-16.6", "file": "dns/resolver.py", "expect": "fires",
      "old": "                if self.ndots is None:\n                    ndots = 1\n                else:\n                    ndots = self.ndots\n", "new": "                ndots = self.ndots or 1\n"},
     {"id": "c16-soa-walk-from-question-name", "rule": "R-16.3", "file": "dns/message.py", "expect": "fires",
